@@ -74,6 +74,10 @@ static LIVE_BLOCKS: AtomicUsize = AtomicUsize::new(0);
 static LIVE_BYTES: AtomicUsize = AtomicUsize::new(0);
 static ALLOC_COUNT: AtomicUsize = AtomicUsize::new(0);
 static ALLOC_BYTES: AtomicUsize = AtomicUsize::new(0);
+static OFF_MODE: AtomicUsize = AtomicUsize::new(0);
+static PAGE_MODE: AtomicUsize = AtomicUsize::new(0);
+static FIXED_OFF: AtomicUsize = AtomicUsize::new(0);
+static NEXT_PAGE: AtomicUsize = AtomicUsize::new(0);
 static FREE_COUNT: AtomicUsize = AtomicUsize::new(0);
 static DIGEST: AtomicU64 = AtomicU64::new(0xcbf29ce484222325);
 static NTOUCHED: AtomicUsize = AtomicUsize::new(0);
@@ -199,7 +203,9 @@ unsafe impl GlobalAlloc for SimAlloc {
                 }
             }
         }
-        let start = (lrand() % PAGES as u64) as usize;
+        // placement modes (from the layout seed): random page (default) or the next pages in
+        // ascending order, the way a bump allocator clusters addresses
+        let start = if PAGE_MODE.load(Relaxed) == 1 { (NEXT_PAGE.load(Relaxed) + 1) % PAGES } else { (lrand() % PAGES as u64) as usize };
         let mut p = start;
         let mut scanned = 0usize;
         loop {
@@ -237,9 +243,16 @@ unsafe impl GlobalAlloc for SimAlloc {
         LIVE_BLOCKS.fetch_add(1, Relaxed);
         LIVE_BYTES.fetch_add(l.size(), Relaxed);
         let al = l.align().max(8);
+        NEXT_PAGE.store(p + npages - 1, Relaxed);
         let off = if npages == 1 {
             let slack = (PAGE - l.size()) / al;
-            (lrand() % (slack as u64 + 1)) as usize * al
+            match OFF_MODE.load(Relaxed) {
+                // every block at the same offset in its page: all addresses agree in their
+                // low 12 bits (worst case for a multiplicative hash of pointers)
+                1 => (FIXED_OFF.load(Relaxed) / al).min(slack) * al,
+                2 => 0,
+                _ => (lrand() % (slack as u64 + 1)) as usize * al,
+            }
         } else {
             0
         };
@@ -383,6 +396,12 @@ pub fn reset(layout_seed: u64, arena_on: bool) {
     COUNT_ONLY_LIVE.store(0, Relaxed);
     DIGEST.store(0xcbf29ce484222325, Relaxed);
     LSEED.store(layout_seed ^ 0xA5A5_5A5A_1234_5678, Relaxed);
+    let mode = (layout_seed >> 3) % 16;
+    // (small seeds, which minimised replay files use, keep the default mode)
+    OFF_MODE.store(match mode { 4 | 6 => 1, 5 => 2, _ => 0 }, Relaxed);
+    PAGE_MODE.store(usize::from(mode == 6 || mode == 7), Relaxed);
+    FIXED_OFF.store(((layout_seed >> 9) % 256) as usize * 16, Relaxed);
+    NEXT_PAGE.store((layout_seed >> 20) as usize % PAGES, Relaxed);
     IN_WEAK.store(false, Relaxed);
 }
 
